@@ -242,9 +242,11 @@ def unwrap_target_cases():
     """-> [(id, source)]: programs that must be rejected at compile time"""
     out = []
     for ty, v, use in (("int", "3", "v + 1"), ("str", '"s"', "v.len()"), ("bool", "true", "!v"), ("float", "1.5", "v * 2.0"), ("[int...]", "[1]", "v.len()")):
-        for how, e in (("variable", "e"), ("result", "none()")):
+        # (an element of the list made by `map` with a callback `-> T?` is an optional like any other)
+        for how, e in (("variable", "e"), ("result", "none()"), ("element", "cells[0]"), ("map-result-element", "lifted[0]")):
             for where in ("statement", "if", "while", "function"):
-                pre = "none = fn() -> %s? {\n  return nil\n}\ne: %s? = nil\nprint \"MARK\"\n" % (ty, ty)
+                pre = ("none = fn() -> %s? {\n  return nil\n}\ne: %s? = nil\ncells: [%s?...] = [nil]\nlift = fn(k: int) -> %s? {\n  return nil\n}\nlifted = [1].map(lift)\nprint \"MARK\"\n"
+                       % (ty, ty, ty, ty))
                 if where == "statement":
                     body = "v: %s = %s\nt = v ?= %s\nprint t\nprint %s\n" % (ty, v, e, use)
                 elif where == "if":
@@ -406,7 +408,7 @@ def run(ctx):
                        "side-effecting and nested fallback) / get in statement, if and while position with random nil/present; `?=` in if / statement / "
                        "while position against a Python oracle; present optional == / != plain value for every scalar kind and four list types x "
                        "{variable, function result, parameter, class field, list element} (exhaustive); `?=` into a non-optional variable with e nil "
-                       "(5 types x variable/result x statement/if/while/function) must be rejected; non-trivial = distinct program that ran")
+                       "(5 types x variable/result/list element/element of a `map` result x statement/if/while/function) must be rejected; non-trivial = distinct program that ran")
     ctx.cov["statistics"] = st
     ctx.cov["programs_stopped_by_get_nil_with_matching_span"] = nils
     ctx.cov["unwrap_into_cases"] = n_u
